@@ -59,7 +59,8 @@ def classify(tr, line, clause):
         m = cfg["msg"]
         return "%s:stream:%s:%s:msg(wf=%s,qr=%s,id=%s,op=%s,q=%s,L=%s)%s:%s:%s" % (
             clause, cfg.get("api"), flavor, m.get("wf"), m.get("qr"), m.get("idm"), m.get("opm"), m.get("qm"), cfg.get("L"),
-            ",it" if cfg.get("it") else "", e.get("op"), e.get("exc") or e.get("kind", ""))
+            (",it" if cfg.get("it") else "") + (",timeout=%s" % cfg["tz"] if cfg.get("tz", "-") != "-" else ""),
+            e.get("op"), e.get("exc") or e.get("kind", ""))
     d = e.get("d", {})
     # F15: the async receive path parses with continue_on_error when ignore_errors is set, so
     # a datagram that is malformed after the question (bad RDATA, or trailing octets without
@@ -70,7 +71,8 @@ def classify(tr, line, clause):
         return "F15:async-ignore_errors-returns-malformed:%s" % d["wf"]
     return "%s:udp:%s:%s:%s:src=%s,wf=%s,qr=%s,id=%s,op=%s,q=%s,tc=%s:%s:%s" % (
         clause, cfg.get("api"), flavor,
-        "".join(k for k in ("iu", "ie", "rot", "it", "mcast", "hasq", "anysrc") if cfg.get(k)) or "-",
+        ("".join(k for k in ("iu", "ie", "rot", "it", "mcast", "hasq", "anysrc") if cfg.get(k)) or "-")
+        + (",timeout=%s" % cfg["tz"] if cfg.get("tz", "-") != "-" else ""),
         d.get("src"), d.get("wf"), d.get("qr"), d.get("idm"), d.get("opm"), d.get("qm"), d.get("tc"),
         e.get("obs", e.get("kind", e.get("op"))), e.get("exc", ""))
 
